@@ -409,6 +409,54 @@ Proof. exact history_lengths_example. Qed.
 Print Assumptions C19_history_lengths_nonvacuous.
 
 (* ------------------------------------------------------------------------------------------------------------- *)
+(* Round 6: the executable history checker the harness runs on the two real drivers (`check_spec` on a CHist case =
+   `obs_safe` after EVERY operation: every program's slots exist, hold its data, are referenced and defined with its
+   segments' lengths; no internal error; driver's records = instrument; idle slot; defined length <= capacity; and the
+   defined capacities fit the instrument) accepts the observation `xtrace` of every state the modelled driver goes through,
+   for every history.  Every conjunct of the test is therefore a consequence of the proved invariants (the test demands
+   nothing of the implementation that is not a theorem about the model), and the theorem covers the intermediate
+   states, not only the final one.  Second half: the same trace passes `check_corr` (model = model; it only shows that
+   `xtrace` is the observation the comparison expects).  Hypotheses: a hash determines the segment length (lenof), lengths
+   are non-negative, the instrument has room for the idle segment. *)
+Require Import QV.C19.ProofsAccept.
+Theorem C19_check_accepts_model : forall lenof total ops,
+  lenof IDLE = 192 -> Forall (op_lens_from lenof) ops -> 192 <= total -> ops_lens_nonneg ops = true ->
+  check_spec (CHist total ops (xtrace lenof (xclear total) ops)) = true /\
+  check_corr (CHist total ops (xtrace lenof (xclear total) ops)) = true.
+Proof. exact check_accepts_model. Qed.
+Print Assumptions C19_check_accepts_model.
+
+(* the step behind it, stated on its own: the invariants J (slots/refcounts/belief/idle) and L (lengths) of a state and
+   "the operation did not end in an internal error" give `obs_safe` of the state's observation *)
+Theorem C19_obs_safe_from_invariants : forall lenof s e,
+  J (x_d s) -> L lenof s -> internal e = false -> obs_safe (obs_of lenof s e) = true.
+Proof. exact obs_safe_of_invariants. Qed.
+Print Assumptions C19_obs_safe_from_invariants.
+
+(* the placement calls made inside a history are part of the Coq case since round 6 (`CHistD`, `pcall_spec` = the four
+   clauses via decision_okb on the driver's OWN arrays at the moment of the call; an assertion / bad-input refusal is a
+   failure).  On the model side: whatever the modelled decision function returns for the segments of ANY upload on the
+   arrays of a state reachable by ANY history passes that check (and the comparison with itself: model = model). *)
+Theorem C19_history_calls_accepted : forall total ops feature segs,
+  let d := run (clear total) ops in
+  pcall_spec total (model_call feature d segs) = true /\ pcall_corr total (model_call false d segs) = true.
+Proof. exact calls_accepted. Qed.
+Print Assumptions C19_history_calls_accepted.
+
+(* non-vacuity: a 7-operation history with shorter segments in larger freed slots satisfies the hypotheses; its trace has
+   7 observations with up to 5 programs and 7 slots, and the checker accepts it *)
+Theorem C19_check_accepts_model_nonvacuous :
+  lens_lenof IDLE = 192 /\ Forall (op_lens_from lens_lenof) lens_ops /\ ops_lens_nonneg lens_ops = true /\
+  let tr := xtrace lens_lenof (xclear 100000) lens_ops in
+  length tr = 7%nat /\
+  map (fun o => length (ho_progs o)) tr = [1; 2; 1; 2; 3; 4; 5]%nat /\
+  ho_caps (last tr (obs_of lens_lenof (xclear 0) None)) = [192; 256; 400; 192; 1000; 1008; 1024] /\
+  ho_devlen (last tr (obs_of lens_lenof (xclear 0) None)) = map Some [192; 224; 208; 192; 1000; 1008; 1024] /\
+  check_spec (CHist 100000 lens_ops tr) = true.
+Proof. exact check_accepts_model_example. Qed.
+Print Assumptions C19_check_accepts_model_nonvacuous.
+
+(* ------------------------------------------------------------------------------------------------------------- *)
 (* REMARK — NOT PART OF PROPERTY C19.  C19 is a safety property (a refusal is always safe).  The corresponding
    liveness statement "the placement refuses only if no safe placement exists" is false for the code as it is: the
    index mix-up in the second loop (position in the reversed unsorted free capacities used as position in the free
